@@ -32,7 +32,12 @@ impl Engine for CombEngine {
 impl CombEngine {
     pub fn eval_case(&self, case: &crate::spec::Case, trace: bool) -> Eval {
         let mut out = run_case(case, cfg!(feature = "cfg-std"), trace);
-        oracle::check_trace(&mut out.world);
+        if case.fair_polls > 5_000 || case.root.children.len() > 5_000 {
+            // the functional oracles are quadratic in the length of a run
+            oracle::check_trace_fairness_only(&mut out.world);
+        } else {
+            oracle::check_trace(&mut out.world);
+        }
         let nontrivial = out.inconclusive.is_none() && (self.prop.nontrivial)(case, &out);
         let labels = labels(case, &out);
         let mut violations = if out.inconclusive.is_some() { Vec::new() } else { std::mem::take(&mut out.world.viol) };
